@@ -142,6 +142,13 @@ def run(case, rec):
         # every second label is represented by a falsy (but perfectly legal) object
         orig = fl._make
         fl._make = lambda label: FalsyPerson("g-" + label, label) if (len(label) + (ord(label[0]) if label else 0)) % 2 else orig(label)
+    if flav == "str" and case.get("tags"):
+        # some of the strings are instances of a str subclass whose str() text is not its value: the documented
+        # dict form carries str(data)
+        from vlib.serial import Tag
+
+        fl._make = lambda label: Tag(label) if label[:1] in ("b", "d", "q") else label
+        rec.cls("str-subclass-data")
     tree, nodes = build(case["spec"], flavour=fl, tree=SaveMapperTree("T") if case.get("subclass") else None)
     if case.get("subclass"):
         rec.cls("Tree-subclass-with-save-mapper")
@@ -291,10 +298,18 @@ def run(case, rec):
     if type(t2) is not Tree:
         rec.fail("from_dict:class", repr(type(t2)))
 
+    from vlib.serial import Tag
+
     def view(wk, n):
         d = n.data
         val = (type(d).__name__, d.guid, d.name) if isinstance(d, Person) else d
-        return [val, n.data_id, [view(wk, c) for c in wk.kids[id(n)]]]
+        did = n.data_id
+        if type(d) is Tag:
+            # the dict form carries str(data): that text is what from_dict() gets (and derives the data_id from,
+            # unless an explicit id was stored)
+            val = str(d)
+            did = did if did != hash(d) else hash(val)
+        return [val, did, [view(wk, c) for c in wk.kids[id(n)]]]
 
     v1 = [view(w, n) for n in w.kids[id(None)]]
     v2 = [view(w2, n) for n in w2.kids[id(None)]]
@@ -335,6 +350,8 @@ def hyp_cases(draw, tier):
     case = {"spec": spec, "flavour": flav, "json": draw(st.booleans())}
     if flav == "str" and draw(st.sampled_from([0, 0, 1])):
         case["subclass"] = True
+    if flav == "str" and draw(st.sampled_from([0, 0, 1])):
+        case["tags"] = True
     if flav == "obj":
         case["style"] = draw(st.sampled_from(["inplace", "newdict", "guidkey", "refs"]))
         case["falsy"] = draw(st.booleans())
